@@ -22,6 +22,7 @@ One output line per input line.  Producer: harness/collect_common.py.
   collect | row t ign|strict c=v … | stop k
   reorder rev|rot                model.agents.shuffle(inplace=True) drawing the reversal / the rotation by one
   reorder ida|idd | reorder ata|atd a     model.agents.sort(key, ascending, inplace=True) by unique_id / int attribute a
+  reorder perm [p0,p1,..]        model.agents.shuffle(inplace=True) drawing the permutation p of the positions (position p[j] goes to j)
   mvars | mframe | aframe | tframe T | tab t            (observations)
   -- scenario batch
   init op ; op ; …   body op ; op ; …     op templates: `$p` in an int position = the int carried by
@@ -149,6 +150,8 @@ def parseOp : List String → Option Op
   | ["reorder", "idd"] => some (.reorder (.byId false))
   | ["reorder", "ata", a] => do pure (.reorder (.byAttr (← a.toNat?) true))
   | ["reorder", "atd", a] => do pure (.reorder (.byAttr (← a.toNat?) false))
+  | ["reorder", "perm"] => some (.reorder (.perm []))
+  | ["reorder", "perm", p] => do pure (.reorder (.perm (← (p.splitOn ",").mapM (·.toNat?))))
   | _ => none
 
 def fmtErr : Err → String
